@@ -213,6 +213,8 @@ Proof.
     + rewrite (Hc _ _ x Ql). split; [intros Qw; left; split; [|done]|].
       * intros ->. destruct Qw as (? & ? & ? & ? & ? & ? & Ho' & ?). simplify_eq. congruence.
       * intros [[_ ?]|(_ & ? & _)]; done.
+  - (* destroy *)
+    rewrite waits_upd_same; [by eapply Hc|done|destruct Hpc as [Hpc|[Hpc _]]; rewrite Hpc; done|by destruct l].
 Qed.
 
 Lemma step_vi_wait_lock : ∀ x n, waits (v_thr s') x n → is_Some (v_locks s' !! n).
@@ -233,6 +235,7 @@ Proof.
   - destruct Qw as [[_ Qw]|(_ & _ & ? & ? & ? & ? & Ho')]; [by eapply Hc|]. rewrite Hop in Ho'. simplify_eq.
   - destruct Qw as [[_ Qw]|(_ & ? & _)]; [by eapply Hc|done].
   - destruct Qw as [[_ Qw]|(_ & ? & _)]; [by eapply Hc|done].
+  - destruct Qw as [[_ Qw]|(_ & ? & _)]; [by eapply Hc|by destruct l].
 Qed.
 
 Lemma step_vi_live_owner : ∀ n k, slive s' n k → owner (v_thr s') n k.
